@@ -356,6 +356,9 @@ class ProtocolContext:
             raise exc.ProtocolSendFailed(f"{self}: Send failed: {err}") from err
 
     def _check_buffer_for_cmd(self) -> None:
+        if isinstance(self._state, Inactive):  # e.g. the connection was lost meanwhile
+            return
+
         self._lock.acquire()
         assert isinstance(self.is_sending, bool), f"{self}: Coding error"  # mypy hint
 
